@@ -171,7 +171,7 @@ func runC14(r *Run) {
 	for i := range answers {
 		answers[i] = clgrpc.ResponseType(t.Intn(3, "classifier-answer"))
 	}
-	excCode := []codes.Code{codes.ResourceExhausted, codes.Unavailable, codes.Aborted}[t.Intn(3, "exceeded-code")]
+	excCode := []codes.Code{codes.ResourceExhausted, codes.Unavailable, codes.Aborted, codes.OK}[t.Intn(4, "exceeded-code")] // OK: the refusal is reported as a nil error - the wrapped call still must not run
 	excResp := &struct{ x int }{42}
 	excCalls := 0
 	excLimiterSeen := ""
